@@ -97,6 +97,7 @@ func detailRerunLine(t []string) string {
 	if err := vm.RunAfterParsed(); err != nil {
 		return "err " + hx(err.Error())
 	}
+	m1, r1 := vm.Matched, vm.RestInput
 	_ = vm.GetDetailText()
 	if err := vm.RunAfterParsed(); err != nil {
 		return "err " + hx(err.Error())
@@ -107,6 +108,11 @@ func detailRerunLine(t []string) string {
 	after := canon(vm.Ret) + " " + canonAttrs(vm.Attrs) + " " + seedOf(vm)
 	same := "1"
 	if before != after {
+		same = "0"
+	}
+	// asking for the text between two evaluations of one parsed program leaves the program's source alone: the second evaluation reports
+	// the same Matched / RestInput as the first
+	if vm.Matched != m1 || vm.RestInput != r1 || m1+r1 != src {
 		same = "0"
 	}
 	idem := "1"
@@ -149,3 +155,47 @@ func detailFailLine(t []string) string {
 }
 
 func init() { handlers["detailfail"] = detailFailLine }
+
+// rerunresume <cfg> <seed> <hexsrc> : Parse once; RunAfterParsed; GetDetailText; GetCurSeed; RunAfterParsed again — value and process text
+// of the second evaluation  ||  the same from a fresh context seeded with the reported bytes that runs the text
+func rerunResumeLine(t []string) string {
+	if len(t) != 4 {
+		return "bad-op"
+	}
+	cfg, ok := parseCfg(t[1])
+	src, ok2 := unhx(t[3])
+	if !ok || !ok2 {
+		return "bad-op"
+	}
+	vm, ok := newVM(cfg, t[2])
+	if !ok {
+		return "bad-op"
+	}
+	return safely(func() string {
+		if err := vm.Parse(src); err != nil {
+			return "err " + hx(err.Error())
+		}
+		if err := vm.RunAfterParsed(); err != nil {
+			return "err " + hx(err.Error())
+		}
+		_ = vm.GetDetailText()
+		seed, err := vm.GetCurSeed()
+		if err != nil {
+			return "err-getcurseed"
+		}
+		if err := vm.RunAfterParsed(); err != nil {
+			return "err " + hx(err.Error())
+		}
+		a := canon(vm.Ret) + " d=" + hx(vm.GetDetailText()) + " m=" + hx(vm.Matched) + " " + seedOf(vm)
+		b := &ds.Context{}
+		b.Seed = seed
+		b.Init()
+		b.Config = cfg
+		if err := b.Run(src); err != nil {
+			return a + " || err " + hx(err.Error())
+		}
+		return a + " || " + canon(b.Ret) + " d=" + hx(b.GetDetailText()) + " m=" + hx(b.Matched) + " " + seedOf(b)
+	})
+}
+
+func init() { handlers["rerunresume"] = rerunResumeLine }
